@@ -1,5 +1,5 @@
 // Package evmword runs generated straight-line EVM programs through the real interpreter
-// (core/vm via core/vm/runtime.Execute) and records every executed instruction for spec/EvmWord_Mon.tla (C15).
+// (core/vm via core/vm/runtime.Call on a committed, reopened state) and records every executed instruction for spec/EvmWord_Mon.tla (C15).
 //
 // A behaviour is one program: {"id":..,"kind":..,"code":[[op, arg], ...]} with abstract opcodes
 //
@@ -37,6 +37,7 @@ type Program struct {
 	Id   int        `json:"id"`
 	Kind string     `json:"kind"`
 	Code [][]string `json:"code"`
+	Sto0 [][]string `json:"sto0"` // storage committed before the transaction: [[key, value], ...] (decimal words)
 }
 
 type capture struct {
@@ -152,12 +153,33 @@ func compile(p *Program) ([]byte, []instr, error) {
 	return code, ins, nil
 }
 
-var contractAddr = common.BytesToAddress([]byte("contract")) // the address runtime.Execute installs the code at
+var contractAddr = common.BytesToAddress([]byte("contract"))
 
-func execute(code []byte) (t *tracer, st *state.StateDB, err error, panicked string) {
+// execute deploys the code with the given committed storage (a state that was committed and reopened, so that the
+// slots have an "original" value in the sense of net gas metering) and calls it.
+func execute(code []byte, sto0 [][]string) (t *tracer, st *state.StateDB, err error, panicked string) {
 	t = &tracer{seen: map[common.Hash]bool{}}
 	yp := params.Versions[params.YouCurrentVersion]
-	st, _ = state.New(common.Hash{}, common.Hash{}, common.Hash{}, state.NewDatabase(youdb.NewMemDatabase()))
+	st0, _ := state.New(common.Hash{}, common.Hash{}, common.Hash{}, state.NewDatabase(youdb.NewMemDatabase()))
+	st0.CreateAccount(contractAddr)
+	st0.SetNonce(contractAddr, 1)
+	st0.SetCode(contractAddr, code)
+	for _, kv := range sto0 {
+		k, ok1 := new(big.Int).SetString(kv[0], 10)
+		v, ok2 := new(big.Int).SetString(kv[1], 10)
+		if !ok1 || !ok2 {
+			return t, nil, fmt.Errorf("bad sto0 entry %v", kv), ""
+		}
+		st0.SetState(contractAddr, common.BigToHash(k), common.BigToHash(v))
+	}
+	r1, r2, r3, cerr := st0.Commit(true)
+	if cerr != nil {
+		return t, nil, cerr, ""
+	}
+	st, cerr = state.New(r1, r2, r3, st0.Database())
+	if cerr != nil {
+		return t, nil, cerr, ""
+	}
 	cfg := &runtime.Config{
 		GasLimit:    10000000,
 		Time:        big.NewInt(1),
@@ -173,7 +195,7 @@ func execute(code []byte) (t *tracer, st *state.StateDB, err error, panicked str
 			panicked = fmt.Sprint(r)
 		}
 	}()
-	_, _, err = runtime.Execute(code, nil, cfg)
+	_, _, err = runtime.Call(contractAddr, nil, cfg)
 	return
 }
 
@@ -192,7 +214,15 @@ func run(env *drive.Env) error {
 		if err != nil {
 			return fmt.Errorf("behaviour %d: %v", env.T, err)
 		}
-		t, st, xerr, panicked := execute(code)
+		t, st, xerr, panicked := execute(code, p.Sto0)
+		if st == nil {
+			return fmt.Errorf("behaviour %d: set-up failed: %v", env.T, xerr)
+		}
+		sto0 := p.Sto0
+		if sto0 == nil {
+			sto0 = [][]string{}
+		}
+		env.Emit(map[string]interface{}{"ev": "Begin", "sto0": sto0})
 		caps := t.caps
 		// one capture per instruction of a straight-line program; they must be the instructions we compiled
 		for i, c := range caps {
@@ -232,6 +262,13 @@ func run(env *drive.Env) error {
 		}
 		sto := [][]string{}
 		if panicked == "" {
+			for _, kv := range p.Sto0 { // the deployed slots are read back too
+				kb, _ := new(big.Int).SetString(kv[0], 10)
+				if k := common.BigToHash(kb); !t.seen[k] {
+					t.seen[k] = true
+					t.keys = append(t.keys, k)
+				}
+			}
 			for _, k := range t.keys {
 				v := st.GetState(contractAddr, k)
 				sto = append(sto, []string{new(big.Int).SetBytes(k.Bytes()).String(), new(big.Int).SetBytes(v.Bytes()).String()})
